@@ -315,7 +315,7 @@ func LeafValues(t *schema.Type, depth int) []*Value {
 			{T: t, Guid: [16]byte{0xff, 0xee, 0xdd, 0xcc, 0xbb, 0xaa, 0x99, 0x88, 0x77, 0x66, 0x55, 0x44, 0x33, 0x22, 0x11, 0x00}},
 		}
 	case "date":
-		return []*Value{
+		out := []*Value{
 			{T: t, Ticks: 0},
 			{T: t, Ticks: 16094592000000000},                      // 2021-01-01
 			{T: t, Ticks: 16094592000000000 + 1234567, DateV: 1}, // non-UTC location
@@ -324,6 +324,12 @@ func LeafValues(t *schema.Type, depth int) []*Value {
 			{T: t, Ticks: 0x0102030405060708},
 			{T: t, Ticks: 1},
 		}
+		if AmbiguousDates {
+			// instants before 1970 that are not on the 100 ns grid: which neighbouring tick they normalise to is not
+			// specified, so they are used only where the oracle is agreement between encoders (C02)
+			out = append(out, &Value{T: t, Ticks: -8520336000*10000000 - 3, DateV: 3}, &Value{T: t, Ticks: -5, DateV: 3})
+		}
+		return out
 	}
 	panic("no values for " + t.String())
 }
@@ -615,3 +621,6 @@ func BigValues(r *schema.Record, thorough bool) []*RecValue {
 
 // ThoroughBig selects the larger size list for BigValues inside RecValues (set once by the worker).
 var ThoroughBig bool
+
+// AmbiguousDates adds date values whose normal form is unspecified (negative, off the 100 ns grid); set by C02 only.
+var AmbiguousDates bool
